@@ -102,6 +102,14 @@ def type_infer(t, *, forbid_internal=True):
         else:
             raise TypeInferenceException("Unable to unify " + str(T1) + " with " + str(T2))
 
+    def given(T):
+        """Check a type supplied with the term or by the context: names
+        starting with _t are reserved for the temporary type variables."""
+        for sT in T.get_stvars():
+            if is_internal_type(sT):
+                raise TypeInferenceException("Type variable " + str(sT) + " is reserved for type inference")
+        return T
+
     def infer(t, bd_vars):
         """Infer the type of T."""
         # Var case: if type is not known, try to obtain it from context,
@@ -109,23 +117,27 @@ def type_infer(t, *, forbid_internal=True):
         if t.is_svar():
             if t.T is None:
                 if t.name in context.ctxt.svars:
-                    t.T = context.ctxt.svars[t.name]
+                    t.T = given(context.ctxt.svars[t.name])
                 elif t.name in incr_sctxt:
                     t.T = incr_sctxt[t.name]
                 else:
                     t.T = new_type()
                     incr_sctxt[t.name] = t.T
+            else:
+                given(t.T)
             return t.T
 
         elif t.is_var():
             if t.T is None:
                 if t.name in context.ctxt.vars:
-                    t.T = context.ctxt.vars[t.name]
+                    t.T = given(context.ctxt.vars[t.name])
                 elif t.name in incr_ctxt:
                     t.T = incr_ctxt[t.name]
                 else:
                     t.T = new_type()
                     incr_ctxt[t.name] = t.T
+            else:
+                given(t.T)
             return t.T
 
         # Const case: if type is not known, obtain it from theory,
@@ -136,13 +148,15 @@ def type_infer(t, *, forbid_internal=True):
                     T = theory.thy.get_term_sig(t.name, stvar=True)
                 except theory.TheoryException as e:
                     if t.name in context.ctxt.defs:
-                        T = context.ctxt.defs[t.name]
+                        T = given(context.ctxt.defs[t.name])
                     else:
                         raise e
                 tyinst = TyInst()
                 for STv in T.get_stvars():
                     tyinst[STv.name] = new_type()
                 t.T = T.subst(tyinst)
+            else:
+                given(t.T)
             return t.T
 
         # Comb case: recursively infer type of fun and arg, then
@@ -173,6 +187,8 @@ def type_infer(t, *, forbid_internal=True):
         elif t.is_abs():
             if t.var_T is None:
                 t.var_T = new_type()
+            else:
+                given(t.var_T)
             bodyT = infer(t.body, [t.var_T] + bd_vars)
             return TFun(t.var_T, bodyT)
 
@@ -186,7 +202,7 @@ def type_infer(t, *, forbid_internal=True):
     if context.ctxt.defs and t.is_equals():
         t_head, t_args = t.lhs.strip_comb()
         if t_head.is_const() and t_head.name in context.ctxt.defs:
-            t_head.T = context.ctxt.defs[t_head.name]
+            t_head.T = given(context.ctxt.defs[t_head.name])
 
     infer(t, [])
 
